@@ -24,8 +24,9 @@ theorem fact_translated_all :
       "cosmoslane_CLVestingMessagesAuthorizationDecorator_AnteHandle",
       "duallane_DLValidateBasicDecorator_AnteHandle", "keeper_msgServer_SubmitProofExternalOwnedAccount",
       "duallane_DLSigVerificationDecorator_AnteHandle", "duallane_DLIncrementSequenceDecorator_AnteHandle",
-      "indexer_TxIndexKey", "indexer_parseBlockNumberFromKey", "evmlane_ELValidateBasicEoaDecorator_AnteHandle",
-      "evmlane_ELSetupExecutionDecorator_AnteHandle", "evmlane_ELEmitEventDecorator_AnteHandle"] := by
+      "duallane_DLDeductFeeDecorator_AnteHandle", "indexer_TxIndexKey", "indexer_parseBlockNumberFromKey",
+      "evmlane_ELValidateBasicEoaDecorator_AnteHandle", "evmlane_ELSetupExecutionDecorator_AnteHandle",
+      "evmlane_ELEmitEventDecorator_AnteHandle"] := by
   decide +kernel
 
 theorem fact_uninterpreted :
